@@ -291,6 +291,7 @@ def prove_with_cancellation(hyps, goals, *, inv_atoms=None, log=None, budget_s=3
 
 
 def prove(hyps, goals, *, alg_atoms=None, sq_atoms=None, inv_atoms=None, defined=None, extra_deg=2, maxdeg=None,
+          sq_mode="all",
           max_rounds=24, max_rows=120000, timeout_ms=120000, budget_s=300.0, max_terms=3_000_000, log=None):
     """Try to show that every goal is zero given hyps (all == 0).
 
@@ -305,7 +306,8 @@ def prove(hyps, goals, *, alg_atoms=None, sq_atoms=None, inv_atoms=None, defined
 
     # squares of sqrt/abs atoms are rewritten only when the radicand is simple; otherwise the
     # defining equation stays an ordinary hypothesis (avoids expression swell)
-    sq_simple = dict(sq_atoms)
+    sq_simple = dict(sq_atoms) if sq_mode == "all" else {
+        v: a for v, a in sq_atoms.items() if a.nterms() <= 1 and not (a.vars() & set(inv_atoms))}
 
     def norm(p):
         return reduce_atoms(reduce_squares(p, sq_simple), alg_atoms)
